@@ -58,7 +58,9 @@ def float2mpf(ctx, x):
         prec = get_precision(x)
         _, rounding = ctx._prec_rounding
         mantissa, exponent = numpy.frexp(x)
-        man_ = ctx.ldexp(mantissa, prec)
+        # numpy.ldexp is exact here; ctx.ldexp would round the mantissa
+        # to the working precision of ctx
+        man_ = numpy.ldexp(mantissa, prec)
         man = int(man_)
         assert man == man_
         exp_ = exponent - prec
